@@ -79,23 +79,24 @@ struct Pv {
     rs: u8, // size of the success reply's body: 0 small, 1..6 = 4095, 4096, 4097, 65535, 65537, 1 MiB
     rt: u8, // async cases: 1 = a runtime of its own with one worker thread and one blocking thread
     bb: u8, // which undecodable body a `badbody` reply carries
+    st: u8, // replies stall in mid-frame for 0 / 300 ms / 600 ms / 1.1 s / 2.5 s / 5.5 s / 11 s (the node timeout is then twice that + 2 s)
 }
 
-const PV_RANGES: [u8; 17] = [6, 6, 4, 5, 3, 4, 3, 3, 3, 3, 2, 4, 5, 2, 7, 2, 8];
+const PV_RANGES: [u8; 18] = [6, 6, 4, 5, 3, 4, 3, 3, 3, 3, 2, 4, 5, 2, 7, 2, 8, 7];
 
 impl Pv {
-    fn fields(&self) -> [u8; 17] {
-        [self.nm, self.tg, self.me, self.pa, self.to, self.dl, self.dt, self.by, self.cl, self.mf, self.op, self.ob, self.fr, self.ls, self.rs, self.rt, self.bb]
+    fn fields(&self) -> [u8; 18] {
+        [self.nm, self.tg, self.me, self.pa, self.to, self.dl, self.dt, self.by, self.cl, self.mf, self.op, self.ob, self.fr, self.ls, self.rs, self.rt, self.bb, self.st]
     }
-    fn from_fields(f: [u8; 17]) -> Pv {
-        Pv { nm: f[0], tg: f[1], me: f[2], pa: f[3], to: f[4], dl: f[5], dt: f[6], by: f[7], cl: f[8], mf: f[9], op: f[10], ob: f[11], fr: f[12], ls: f[13], rs: f[14], rt: f[15], bb: f[16] }
+    fn from_fields(f: [u8; 18]) -> Pv {
+        Pv { nm: f[0], tg: f[1], me: f[2], pa: f[3], to: f[4], dl: f[5], dt: f[6], by: f[7], cl: f[8], mf: f[9], op: f[10], ob: f[11], fr: f[12], ls: f[13], rs: f[14], rt: f[15], bb: f[16], st: f[17] }
     }
     fn parse(w: &str) -> Option<Pv> {
         let v: Vec<u8> = w.strip_prefix("p=")?.split('.').map(|x| x.parse::<u8>().ok()).collect::<Option<Vec<u8>>>()?;
-        if !(10..=17).contains(&v.len()) || v.iter().zip(PV_RANGES).any(|(x, r)| *x >= r) {
+        if !(10..=18).contains(&v.len()) || v.iter().zip(PV_RANGES).any(|(x, r)| *x >= r) {
             return None;
         }
-        let mut f = [0u8; 17];
+        let mut f = [0u8; 18];
         f[..v.len()].copy_from_slice(&v);
         Some(Pv::from_fields(f))
     }
@@ -104,9 +105,9 @@ impl Pv {
     }
     /// Each field: the ordinary value half of the time, otherwise any of its values.
     fn random(rng: &mut Rng) -> Pv {
-        let mut f = [0u8; 17];
+        let mut f = [0u8; 18];
         for (i, (x, r)) in f.iter_mut().zip(PV_RANGES).enumerate() {
-            if (i < 10 || i >= 12) && rng.chance(1, 2) {
+            if (i < 10 || (12..17).contains(&i)) && rng.chance(1, 2) {
                 *x = rng.below(r as u64) as u8;
             }
         }
@@ -130,7 +131,13 @@ impl Pv {
         }
         p
     }
+    fn stall(&self) -> Duration {
+        Duration::from_millis([0, 300, 600, 1100, 2500, 5500, 11000][self.st as usize])
+    }
     fn t_node(&self) -> Duration {
+        if self.st > 0 {
+            return self.stall() * 2 + Duration::from_secs(2);
+        }
         Duration::from_millis([80, 60, 120][self.to as usize])
     }
     fn delay(&self) -> Duration {
@@ -647,6 +654,7 @@ struct NodeShared {
     frag: AtomicU64,
     /// which undecodable body a `badbody` reply carries (see `bad_body`)
     bad_body_kind: AtomicU64,
+    stall_ms: AtomicU64,
     late_ms: AtomicU64,
     pad_to: AtomicU64,
     _placeholder: OwnedFd,
@@ -779,6 +787,15 @@ fn bad_body(kind: u64) -> (u16, Vec<u8>) {
 /// body), the same with a stall of 3 ms between the pieces, or cut at 48 and after the query.
 fn write_frame(s: &mut TcpStream, frame: &[u8], how: u64, seed: u64, query_len: usize) -> std::io::Result<()> {
     let n = frame.len();
+    let (how, stall_ms) = (how & 0xff, how >> 8);
+    if stall_ms > 0 {
+        // far longer than any timer a client or fleet could plausibly have of its own, far shorter than
+        // the configured timeout: the reply is still the reply
+        let mid = [24usize, 48, 48 + query_len / 2, n - 1][(seed % 4) as usize].min(n - 1).max(1);
+        s.write_all(&frame[..mid])?;
+        std::thread::sleep(Duration::from_millis(stall_ms));
+        return s.write_all(&frame[mid..]);
+    }
     let mut cuts: Vec<usize> = match how {
         0 => vec![],
         1 => (1..n.min(160)).collect(),
@@ -877,7 +894,8 @@ fn handle_conn(sh: Arc<NodeShared>, mut s: TcpStream, id: u64) {
             b
         };
         let mut close = false;
-        let how = sh.frag.load(Ordering::SeqCst);
+        // (a stall is passed to `write_frame` in the upper bits: the frame stops in its middle for that long)
+        let how = sh.frag.load(Ordering::SeqCst) | sh.stall_ms.load(Ordering::SeqCst) << 8;
         let seed = fnv(format!("{}.{log_index}", sh.id).as_bytes());
         match beh {
             Beh::Success => {
@@ -900,10 +918,28 @@ fn handle_conn(sh: Arc<NodeShared>, mut s: TcpStream, id: u64) {
                         f[8..10].copy_from_slice(&0x1508u16.to_le_bytes()); // the magic, everything else sound
                         s.write_all(&f)
                     }
-                    _ => {
+                    2 => {
                         let mut f = reply_frame(&req, 0, 2, b"{}");
                         f[0..8].copy_from_slice(&47u64.to_le_bytes()); // length below the header size
                         s.write_all(&f)
+                    }
+                    // (3–5 are only used by the `ux` rounds: replies another property is about)
+                    3 => {
+                        let mut f = reply_frame(&req, 0, 2, reply_payload(sh.id, log_index).as_bytes());
+                        f[16..24].copy_from_slice(&(req.h.id ^ 0x5555).to_le_bytes()); // another request's id
+                        s.write_all(&f)
+                    }
+                    4 => {
+                        let mut f = reply_frame(&req, 0, 2, reply_payload(sh.id, log_index).as_bytes());
+                        f[11] = 1; // the notify flag
+                        s.write_all(&f)
+                    }
+                    _ => {
+                        let mut f = reply_frame(&req, 0, 2, b"{}");
+                        let q = req.query.len() as u64;
+                        f[0..8].copy_from_slice(&(1u64 << 40).to_le_bytes());
+                        f[32..40].copy_from_slice(&((1u64 << 40) - 48 - q).to_le_bytes()); // body_length to match
+                        s.write_all(&f[..48 + q as usize])
                     }
                 };
             }
@@ -1023,6 +1059,7 @@ impl Node {
             malformed_kind: AtomicU64::new(0),
             frag: AtomicU64::new(0),
             bad_body_kind: AtomicU64::new(0),
+            stall_ms: AtomicU64::new(0),
             late_ms: AtomicU64::new(0),
             pad_to: AtomicU64::new(0),
             _placeholder: ph,
@@ -1065,8 +1102,11 @@ impl Node {
     /// Which error code the node's application errors carry: derived from the case's index token, so a
     /// replay uses the same one. Whatever the code, an error *reply* ends the call.
     fn set_app_code_for(&self, idx: &str) {
-        let codes = [4096u64, 7, 8, 6, 9, 5, 1, 2];
-        self.sh.app_code.store(codes[(fnv(idx.as_bytes()) % 8) as usize], Ordering::SeqCst);
+        // every `ErrorCode` but `Ok`, and codes the enum does not name (reserved range, application range,
+        // the largest): an error *reply* whatever its code
+        let codes = [4096u64, 7, 8, 6, 9, 5, 1, 2, 3, 4, 10, 4095, 4097, 70000, u32::MAX as u64];
+        let code = std::env::var("FLEET_TEST_APP_CODE").ok().and_then(|x| x.parse().ok()).unwrap_or(codes[(fnv(idx.as_bytes()) % 15) as usize]);
+        self.sh.app_code.store(code, Ordering::SeqCst);
     }
     fn set_token(&self, t: &str) {
         self.sh.st.lock().unwrap().token = t.as_bytes().to_vec();
@@ -1079,6 +1119,7 @@ impl Node {
     fn apply(&self, pv: &Pv) {
         self.sh.frag.store(pv.fr as u64, Ordering::SeqCst);
         self.sh.bad_body_kind.store(pv.bb as u64, Ordering::SeqCst);
+        self.sh.stall_ms.store(pv.stall().as_millis() as u64, Ordering::SeqCst);
         self.sh.late_ms.store(if pv.ls == 1 { pv.t_node().as_millis() as u64 + 40 } else { 0 }, Ordering::SeqCst);
         self.sh.pad_to.store([0u64, 4095, 4096, 4097, 65535, 65537, 1 << 20][pv.rs as usize], Ordering::SeqCst);
     }
@@ -1280,6 +1321,21 @@ struct Returned {
     detail: Option<String>,
 }
 
+/// The accessors of `RemoteResult` are a second way to read a report (`succeeded`, `failed`,
+/// `into_result`): they must say what the fields say.
+fn accessors_agree<T>(class: String, r: repe::RemoteResult<T>) -> String {
+    let (s, f) = (r.succeeded(), r.failed());
+    let via = match r.into_result() {
+        Ok(_) => "ok".to_string(),
+        Err(e) => class_of(&e),
+    };
+    if class == "None" || (via == class && s != f && s == (class == "ok")) {
+        class
+    } else {
+        format!("AccessorsDisagree(fields:{class},into_result:{via},succeeded:{s},failed:{f})")
+    }
+}
+
 fn returned_json(r: repe::RemoteResult<serde_json::Value>) -> Returned {
     let class = class_of_result(&r.value, &r.error);
     let detail = match (&r.value, &r.error) {
@@ -1287,7 +1343,7 @@ fn returned_json(r: repe::RemoteResult<serde_json::Value>) -> Returned {
         (Some(v), None) => Some(v.get("r").map_or("?".to_string(), |x| x.to_string())),
         _ => None,
     };
-    Returned { class, detail }
+    Returned { class: accessors_agree(class, r), detail }
 }
 
 fn returned_message(r: repe::RemoteResult<repe::Message>) -> Returned {
@@ -1299,7 +1355,7 @@ fn returned_message(r: repe::RemoteResult<repe::Message>) -> Returned {
         ),
         _ => None,
     };
-    Returned { class, detail }
+    Returned { class: accessors_agree(class, r), detail }
 }
 
 impl AnyFleet {
@@ -1490,7 +1546,7 @@ struct CaseOut {
 
 /// Coverage evidence: which value of each varied parameter the judged cases had.
 fn pv_counters(pv: &Pv, counters: &mut Vec<String>) {
-    let names = ["name_style", "tag_style", "method_style", "params", "node_timeout", "retry_delay", "default_timeout", "bystander", "handle", "malformed_kind", "constructor", "observers", "reply_fragments", "late_reply", "reply_size", "own_runtime", "bad_body_kind"];
+    let names = ["name_style", "tag_style", "method_style", "params", "node_timeout", "retry_delay", "default_timeout", "bystander", "handle", "malformed_kind", "constructor", "observers", "reply_fragments", "late_reply", "reply_size", "own_runtime", "bad_body_kind", "reply_stall"];
     for (n, v) in names.iter().zip(pv.fields()) {
         counters.push(format!("param.{n}.{v}"));
     }
@@ -1526,6 +1582,10 @@ fn check_call(kind: &str, max: usize, c: &CallRec, what: &str, sniffer_dependent
         c.t1.saturating_duration_since(c.t0).as_millis(),
         max
     );
+    // the result's accessors and its fields tell different stories
+    if c.res.starts_with("AccessorsDisagree") {
+        return Verdict::Fail(format!("fleet.{k}.report.accessors_disagree"), ctx);
+    }
     // the fleet did not recognise its own node
     if c.res.starts_with("FleetError") {
         return Verdict::Fail(format!("fleet.{k}.report.neither_reply_nor_error"), ctx);
@@ -1653,7 +1713,11 @@ fn check_call(kind: &str, max: usize, c: &CallRec, what: &str, sniffer_dependent
                     _ => None,
                 };
                 if let (Some(w), Some(got)) = (&want_detail, &c.detail) {
-                    if w != got {
+                    // a code `ErrorCode` does not name is reported under another one by the clients (not the
+                    // fleet's doing): then only the text is compared
+                    let named = [1u32, 2, 3, 4, 5, 6, 7, 8, 9, 4096].contains(&c.app_code) || last.beh != Beh::AppErr;
+                    let same = if named { w == got } else { w.split_once(':').map(|x| x.1) == got.split_once(':').map(|x| x.1) };
+                    if !same {
                         return Verdict::Fail(
                             format!("fleet.{k}.report.not_the_reply"),
                             format!("{ctx}; the node's reply at that contact was {w}, the fleet returned {got}"),
@@ -1804,7 +1868,7 @@ fn run_case(env: &Env, idx: &str, kind: &str, variant: &str, max: usize, seq: &[
                 break;
             }
             let c = one_call(env, fleet, node, variant)?;
-            let slow = c.t1.saturating_duration_since(c.t0) > SLOW_CALL + c.delay * 3;
+            let slow = c.t1.saturating_duration_since(c.t0) > SLOW_CALL + c.delay * 3 + fleet.pv.stall() * 2;
             script_calls.push(c);
             if slow {
                 // far beyond what the script can cost: no point in paying for it 2*len+1 times
@@ -1817,7 +1881,7 @@ fn run_case(env: &Env, idx: &str, kind: &str, variant: &str, max: usize, seq: &[
         for i in 0..HEALTHY_CALLS {
             let c = one_call(env, fleet, node, variant)?;
             let ok = c.res == "ok";
-            let slow = c.t1.saturating_duration_since(c.t0) > SLOW_CALL + c.delay * 3;
+            let slow = c.t1.saturating_duration_since(c.t0) > SLOW_CALL + c.delay * 3 + fleet.pv.stall() * 2;
             healthy_calls.push(c);
             if ok {
                 recovered = Some(i + 1);
@@ -2410,7 +2474,9 @@ fn run_bc(env: &Env, idx: &str, kind: &str, max: usize, nodes: &[BcNode], req: &
             };
             let got = returned.iter().find(|(nm, _)| *nm == real_name(&n.name)).and_then(|(_, r)| r.detail.clone());
             if let Some(got) = got {
-                if got != want {
+                let named = [1u64, 2, 3, 4, 5, 6, 7, 8, 9, 4096].contains(&x.sh.app_code.load(Ordering::SeqCst)) || log[0].beh != Beh::AppErr;
+                let same = if named { got == want } else { got.split_once(':').map(|x| x.1.to_string()) == want.split_once(':').map(|x| x.1.to_string()) };
+                if !same {
                     out.fails.push((format!("fleet.{k}.report.not_the_reply"), format!("{ctx}; node {i} ({}) sent {want}, its result holds {got}", n.name)));
                 }
             }
@@ -2437,6 +2503,25 @@ fn run_bc(env: &Env, idx: &str, kind: &str, max: usize, nodes: &[BcNode], req: &
         0 => &fleet,
         _ => &held,
     };
+    if nodes.len() >= 12 {
+        // (q) the rare operations on a fleet that holds many nodes in every state (connected, never
+        // connected, dropped after a failure): everything is dropped, reconnected, checked, dropped again
+        // and partly reconnected before the second round — which must find the fleet as usable as ever
+        let first = real_name(&nodes[0].name);
+        handle.disconnect_all(env);
+        let _ = handle.reconnect(env, &first);
+        let _ = fleet.health(env, &first, method);
+        let _ = handle.connect_all(env, &first);
+        fleet.disconnect_all(env);
+        let _ = fleet.connect_all(env, &first);
+        out.counters.push("bc.management_on_many_nodes".into());
+        for x in &live {
+            if let Err(r) = x.settle() {
+                out.skip = Some(r);
+                return out;
+            }
+        }
+    }
     let before = std::cell::RefCell::new(live.iter().map(|x| x.log_len()).collect::<Vec<usize>>());
     let mut req2: Vec<String> = req.iter().rev().cloned().collect();
     if let Some(first) = req.first() {
@@ -2913,6 +2998,97 @@ fn run_cx(env: &Env, idx: &str, max: usize, rounds: usize, pv: &Pv) -> CaseOut {
     out
 }
 
+/// `ux`: replies whose handling belongs to other properties — a response carrying another request's id,
+/// a "response" with the notify flag set, a header that announces a frame of 2^40 bytes — in rounds on
+/// one fleet. What the clients make of them (an error of which class, a timeout, a dead connection) is
+/// not this property's business and is not predicted; this property's clauses are: the call returns, at
+/// most `max_attempts` requests reach the node, and once the node answers properly again a call
+/// succeeds (within two calls) with its own reply.
+fn run_ux(env: &Env, idx: &str, kind: &str, max: usize, rounds: usize, pv: &Pv) -> CaseOut {
+    let mut out = CaseOut::default();
+    let k = kind_name(kind);
+    let rig = match build_rig(env, idx, kind, max, &[], pv) {
+        Ok(r) => r,
+        Err(e) => {
+            out.skip = Some(e);
+            return out;
+        }
+    };
+    let (node, fleet) = (&rig.node, &rig.fleet);
+    for round in 0..rounds {
+        let odd = 3 + (round % 3) as u64;
+        node.sh.malformed_kind.store(odd, Ordering::SeqCst);
+        node.reload(vec![Beh::Malformed; max.min(4)]);
+        let variant = ["json", "msg", "jsonnp"][round % 3];
+        let a = match one_call(env, fleet, node, variant) {
+            Ok(c) => c,
+            Err(e) => {
+                out.skip = Some(e);
+                return out;
+            }
+        };
+        let what = ["a response with another request's id", "a response with the notify flag set", "a header announcing 2^40 bytes"][round % 3];
+        if a.contacts.len() > max {
+            out.fails.push((format!("fleet.{k}.attempts.exceeds_max"), format!("round {round}: the node answered with {what}; {} requests reached it, max_attempts {max}", a.contacts.len())));
+            break;
+        }
+        out.counters.push(format!("ux.{k}.kind{odd}.{}", a.res));
+        node.reload(vec![]);
+        let mut calls = vec![];
+        let mut recovered = false;
+        for _ in 0..2 {
+            match one_call(env, fleet, node, variant) {
+                Ok(c) => {
+                    let ok = c.res == "ok";
+                    calls.push(c);
+                    if ok {
+                        recovered = true;
+                        break;
+                    }
+                }
+                Err(e) => {
+                    out.skip = Some(e);
+                    return out;
+                }
+            }
+        }
+        let ctx = format!(
+            "round {round} of {rounds}: the node answered with {what} (the fleet reported {} after {} request(s)); then it answers properly: calls {} (contacts:result:is_connected), max_attempts {max}",
+            a.res,
+            a.contacts.len(),
+            calls.iter().map(show_call).collect::<Vec<_>>().join(" ")
+        );
+        for (i, c) in calls.iter().enumerate() {
+            match check_call(kind, max, c, &format!("round {round}, call {}", i + 1), false) {
+                Verdict::Fine => {}
+                Verdict::Skip(r) => {
+                    out.skip = Some(r);
+                    return out;
+                }
+                Verdict::Fail(sig, d) => {
+                    out.fails.push((sig, format!("{d}; {ctx}")));
+                    break;
+                }
+            }
+        }
+        if out.fails.is_empty() && !recovered {
+            if calls.iter().any(|c| c.res == "Io(TimedOut)" && c.contacts.iter().any(|x| x.beh == Beh::Success)) {
+                out.skip = Some("late_reply".into());
+                return out;
+            }
+            out.fails.push((format!("fleet.{k}.recover.after_foreign_reply"), ctx));
+        }
+        if !out.fails.is_empty() {
+            break;
+        }
+    }
+    out.obs = Some(if out.fails.is_empty() { format!("{idx} rounds ok") } else { format!("{idx} deviates") });
+    out.nontrivial = true;
+    out.counters.push(format!("ux.{k}.max{max}"));
+    pv_counters(pv, &mut out.counters);
+    out
+}
+
 // ------------------------------------------------------------------------------------------
 // what the constructors refuse
 // ------------------------------------------------------------------------------------------
@@ -3035,6 +3211,13 @@ fn exec_case(env: &Env, line: &str) -> CaseOut {
                 return bad();
             }
             run_obs(env, idx, kind, variant, max, o, r, pv)
+        }
+        ["ux", idx, kind, max, rounds] if ["b", "a"].contains(kind) => {
+            let (Ok(max), Ok(r)) = (max.parse::<usize>(), rounds.parse::<usize>()) else { return bad() };
+            if max == 0 || max > 1000 || r == 0 || r > 100_000 {
+                return bad();
+            }
+            run_ux(env, idx, kind, max, r, pv)
         }
         ["cx", idx, "a", max, rounds] => {
             let (Ok(max), Ok(r)) = (max.parse::<usize>(), rounds.parse::<usize>()) else { return bad() };
@@ -3242,6 +3425,24 @@ fn gen_cases(rng: &mut Rng, thorough: bool) -> Vec<String> {
             }
         }
     }
+    // (s) replies that stall in mid-frame for longer than any plausible internal timer (300 ms, 600 ms,
+    // 1.1 s; thorough also 2.5 s, 5.5 s, 11 s) under a node timeout of twice that + 2 s: still the reply,
+    // one request. Run side by side, so the wall time is that of the longest.
+    {
+        let scripts: [&[Beh]; 4] = [&[Beh::Success], &[Beh::AppErr], &[Beh::Atc, Beh::Success], &[Beh::BadBody]];
+        let mut sn = 0usize;
+        for st in 1..=(if thorough { 6u8 } else { 3 }) {
+            for kind in ["b", "a"] {
+                for v in ["json", "jsonnp", "msg"] {
+                    for sc in scripts {
+                        sn += 1;
+                        let pv = Pv { st, bb: (sn % 8) as u8, cl: (sn % 3) as u8, ..Pv::default() };
+                        ops.push(format!("case s{sn} {kind} {v} {} {} {}", 2 + sn % 2, show_seq(sc), pv.show()));
+                    }
+                }
+            }
+        }
+    }
     // (k) pairs of knobs at their extremes: an orthogonal array of strength 2 over seven two-valued knobs
     // (max_attempts 1|64, retry delay 0|40 ms, node timeout 60|120 ms, default timeout 1 ms|20 s, handle
     // fleet|fresh clone, shared|own starved runtime, replies whole|in stalled pieces): every pair of
@@ -3269,6 +3470,14 @@ fn gen_cases(rng: &mut Rng, thorough: bool) -> Vec<String> {
                 }
             }
         }
+    }
+    // (u) replies that are other properties' business (foreign id, notify flag, an absurd length): the
+    // clauses of this one still hold around them
+    for (i, (kind, max)) in [("b", 1usize), ("a", 1), ("b", 2), ("a", 3)].iter().enumerate() {
+        let mut pv = Pv::random(rng);
+        (pv.ob, pv.op, pv.ls, pv.st, pv.mf) = (0, 0, 0, 0, 0);
+        pv.dl = [0, 2][i % 2];
+        ops.push(format!("ux u{i} {kind} {max} {} {}", if thorough { 30 } else { 9 }, pv.show()));
     }
     // (m) an async operation dropped mid-way, in rounds; then the node answers
     for (i, max) in [1usize, 2, 3].iter().enumerate() {
@@ -3396,6 +3605,48 @@ fn gen_cases(rng: &mut Rng, thorough: bool) -> Vec<String> {
     ops
 }
 
+/// Public entry points of the anchored files that the harness drives (calls, with an oracle or as an
+/// observer), and those it knowingly does not.
+const DRIVEN: &[&str] = &[
+    "new", "with_options", "options", "len", "is_empty", "keys", "node", "nodes", "connected_nodes", "filter_nodes", "add_node",
+    "remove_node", "connect_all", "disconnect_all", "reconnect_disconnected", "is_connected_all", "is_connected", "call_json",
+    "call_message", "broadcast_json", "map_reduce_json", "health_check", "with_name", "with_tags", "with_timeout", "succeeded",
+    "failed", "into_result",
+];
+/// `address`: getter of (host, port) on `NodeConfig` / `Node`; takes part in no clause.
+const NOT_DRIVEN_BECAUSE: &[&str] = &["address"];
+
+/// `pub fn` / `pub async fn` names of the anchored files of the tree under test that are in neither list:
+/// a new entry point (a twin, a `_with_timeout` variant …) is then visible in the evidence instead of silent.
+fn entry_point_audit(out: &mut Out) {
+    let repo = std::env::var("VERIF_REPO").unwrap_or_else(|_| "/repo".into());
+    let mut missing: Vec<String> = vec![];
+    let mut seen = 0usize;
+    for file in ["fleet.rs", "async_fleet.rs"] {
+        let text = std::fs::read_to_string(std::path::Path::new(&repo).join("src").join(file)).unwrap_or_default();
+        let text = text.split("#[cfg(test)]").next().unwrap_or("").to_string();
+        for line in text.lines() {
+            let t = line.trim_start();
+            for pre in ["pub async fn ", "pub fn "] {
+                if let Some(rest) = t.strip_prefix(pre) {
+                    let name: String = rest.chars().take_while(|c| c.is_alphanumeric() || *c == '_').collect();
+                    seen += 1;
+                    if !DRIVEN.contains(&name.as_str()) && !NOT_DRIVEN_BECAUSE.contains(&name.as_str()) {
+                        let full = format!("{file}::{name}");
+                        if !missing.contains(&full) {
+                            eprintln!("entry point not driven by fam_fleet: {full}");
+                            out.count(&format!("fleet.NOT_DRIVEN.{full}"));
+                            missing.push(full);
+                        }
+                    }
+                }
+            }
+        }
+    }
+    out.extra.insert("entry_points_seen".into(), serde_json::json!(seen));
+    out.extra.insert("not_driven".into(), serde_json::json!(missing));
+}
+
 fn main() {
     let args = Args::parse();
     quiet_panics();
@@ -3406,6 +3657,7 @@ fn main() {
         rt: Arc::new(tokio::runtime::Builder::new_multi_thread().worker_threads(4).enable_all().build().unwrap()),
     });
     out.extra.insert("sniffer".into(), serde_json::json!(env.sniffer.is_some()));
+    entry_point_audit(&mut out);
     out.extra.insert("node_timeout_ms".into(), serde_json::json!(T_NODE.as_millis() as u64));
     out.extra.insert("retry_delay_ms".into(), serde_json::json!(DELAY.as_millis() as u64));
     out.rule = "case = fresh Fleet/AsyncFleet + one scripted node: calls until the script is consumed (at most 2*len+1), then a healthy phase of up to 3 calls; all behaviour sequences over the 7-letter alphabet up to length max+2 (quick: max 1 up to length 3, max 2 up to length 4, max 3 up to length 3 + 300 sampled sequences of length 4-5; thorough: max 1..3 up to length max+2, exhaustive) + sampled sequences up to length 6 for max_attempts 4, 5, 8, 64 (quick 150, thorough 600) + 12 cases through Fleet::new / AsyncFleet::new (default options), both fleets, call variants json/jsonnp/msg in rotation (thorough: all three for max 1,2); life = every sequence (length 1-3) of connect_all / disconnect_all / reconnect_disconnected / health_check / call against node scripts of length <= 2 without silent (quick: 8 sampled scripts each; thorough: all 43), then the healthy phase; bc / mr (map_reduce_json) = every assignment of tag subsets to up to 3 (thorough 4) nodes x every requested subset, each subset also reversed and with a repeat, one duplicated tag, a tag no node carries; every 7th with a refusing node, every 5th with a node that is silent on every attempt, every 11th with a node answering an application error; after the judged broadcast every node is healthy and the same fleet is used again through the twin entry point (after a panicking reducer in some mr cases) and, in about a fifth of the cases, after remove_node / add_node; obs = 400 (thorough 800) rounds on one fleet of [the node drops one request, then is healthy] for max_attempts 1/2/3, both fleets, while 1-3 threads spin on the read-only entry points; one case in eight of the other families runs with 1-3 pausing observer threads (param.observers); a connection the node was silent on stays hung; opts = what the constructors must refuse (max_attempts 0, duplicate names at construction and at add_node). Two cases in three carry a word p= with drawn values of the parameters the property does not depend on (distribution: param.*). Distinct by op line; non-trivial = a call retried, hit a dead cached client, or returned an error / a broadcast that selects a proper non-empty subset or has a refusing node".into();
